@@ -547,7 +547,14 @@ class GenX(F.Gen):
         init = [assign(V('k'), N(0)), assign(V('x'), R(0)), assign(V('t1'), V('m')), assign(V('t2'), N(1)), assign(V('y'), R(1, 2)),
                 assign(V('la'), V('ia'))]
         init = [dict(st, init=1) for st in init]
-        body = init + self.block(depth, nstmts) + [{'s': 'print', 'items': [V('t1'), V('t2'), V('y'), V('la')]}]
+        mid = self.block(depth, nstmts)
+        if 'loopcarried' in f:
+            for kx in range(rng.choice([1, 1, 2])):
+                blk, dl = self.loopcarried_block(kx + 1)
+                decls += dl
+                pos = rng.randint(0, len(mid))
+                mid[pos:pos] = blk
+        body = init + mid + [{'s': 'print', 'items': [V('t1'), V('t2'), V('y'), V('la')]}]
         kernel = unit('kernel', args, decls, body)
         kernel['mod'] = 'kmod'
         kernel['ck'] = 'kernel'
@@ -556,6 +563,86 @@ class GenX(F.Gen):
         return prune(prog)
 
     p_leaf = 0.15
+
+    def loopcarried_block(self, kx):
+        """An outline region INSIDE a loop that defines plain locals (scalar lcN, array lcaN) which the NEXT
+        iteration reads textually BEFORE the region (loop-carried values), with or without reads after the loop.
+        Returns (statements, declarations of the locals)."""
+        rng = self.rng
+        lc, lca = f'lc{kx}', f'lca{kx}'
+        decls = [decl(lc, 'int'), decl(lca, 'int', 'local', [(0, 4)])]
+        scal = self.int_scalars_noarr
+        form = rng.choice(['do', 'do', 'do-partial', 'do-down', 'while', 'nested', 'nested-inner'])
+        use_arr = rng.random() < 0.7
+        use_scal = (not use_arr) or rng.random() < 0.7
+        saved = (list(self.active_loops), dict(self.loop_range))
+
+        def quiet(n):
+            """simple statements that cannot leave the region / loop and do not print"""
+            for _ in range(30):
+                ss = self.block(0, n)
+                if region_ok(ss) and not any(x['s'] in ('print', 'exit', 'cycle', 'if') for x in _flat(ss)):
+                    return ss
+            return [assign(V('t1'), self.bounded(op('sum', V('t1'), N(1))))]
+        if form == 'while':
+            lv = 'w'
+            self.active_loops.append('w')
+            self.loop_range['w'] = (0, 3)
+        else:
+            lv = 'i'
+            self.active_loops.append('i')
+            self.loop_range['i'] = (0, 4)
+            if form.startswith('nested'):
+                self.active_loops.append('j')
+                self.loop_range['j'] = (0, 2)
+        ix = V(lv)
+        # reads of the carried values, textually before the region
+        reads = []
+        carried = ([V(lc)] if use_scal else []) + ([el(lca, ix)] if use_arr else []) + ([el(lca, N(rng.randint(0, 4)))] if use_arr and rng.random() < 0.5 else [])
+        tgt = rng.choice(['k', 't1', 't2'])
+        reads.append(assign(V(tgt), self.bounded(op('sum', V(tgt), *carried))))
+        if rng.random() < 0.4:
+            reads.append(assign(el('ia', ix), self.bounded(op('sum', el('ia', ix), rng.choice(carried)))))
+        # the region: defines the carried locals (and does not read them, or reads them too: inout)
+        reg = []
+        src = op('sum', op('prod', ix, N(rng.choice([2, 3]))), self.int_expr(1, scal), N(1))
+        if use_scal:
+            reg.append(assign(V(lc), self.bounded(op('sum', V(lc), src) if rng.random() < 0.2 else src)))
+        if use_arr:
+            r = rng.random()
+            if r < 0.4:
+                reg.append(assign(el(lca, ix), self.bounded(op('sum', src, N(2)))))
+            elif r < 0.7:
+                reg.append({'s': 'do', 'var': 'l', 'lo': N(0), 'hi': N(4), 'st': NONE,
+                            'body': [assign(el(lca, V('l')), self.bounded(op('sum', op('prod', V('l'), ix), self.int_leaf(scal))))]})
+            else:
+                reg.append(assign(V(lca), op('sum', V('ia'), ix)))
+        if rng.random() < 0.5:
+            reg[rng.randint(0, len(reg)):0] = quiet(1)
+        pragma = '!$loki outline' + (f' name(lcreg{kx})' if rng.random() < 0.4 else '')
+        inner = quiet(rng.randint(0, 1)) + reads + quiet(rng.randint(0, 1)) + [raw(pragma)] + reg + [raw('!$loki end outline')]
+        if rng.random() < 0.3:
+            inner += quiet(1)
+        self.active_loops, self.loop_range = saved
+        init = [assign(V(lc), self.int_leaf(['n', 'm'])), assign(V(lca), V(rng.choice(['m', 'n'])))]
+        if form == 'while':
+            loop = [assign(V('w'), N(0)), {'s': 'while', 'cond': cmp_('<', V('w'), N(rng.randint(2, 4))), 'body': inner + [assign(V('w'), op('sum', V('w'), N(1)))]}]
+        elif form == 'nested':          # region in the inner loop
+            loop = [{'s': 'do', 'var': 'i', 'lo': N(0), 'hi': N(rng.randint(2, 4)), 'st': NONE,
+                     'body': [{'s': 'do', 'var': 'j', 'lo': N(0), 'hi': N(rng.randint(1, 2)), 'st': NONE, 'body': inner}]}]
+        elif form == 'nested-inner':    # region in the outer loop, after an inner loop
+            pre = {'s': 'do', 'var': 'j', 'lo': N(0), 'hi': N(2), 'st': NONE, 'body': [assign(V('t2'), self.bounded(op('sum', V('t2'), V('j'), V('i'))))]}
+            loop = [{'s': 'do', 'var': 'i', 'lo': N(0), 'hi': N(rng.randint(2, 4)), 'st': NONE, 'body': [pre] + inner}]
+        elif form == 'do-down':
+            loop = [{'s': 'do', 'var': 'i', 'lo': N(4), 'hi': N(rng.randint(0, 2)), 'st': N(-1), 'body': inner}]
+        elif form == 'do-partial':
+            loop = [{'s': 'do', 'var': 'i', 'lo': N(0), 'hi': call('min', op('sum', V('n'), N(2)), N(4)), 'st': NONE, 'body': inner}]
+        else:
+            loop = [{'s': 'do', 'var': 'i', 'lo': N(rng.randint(0, 1)), 'hi': N(rng.randint(3, 4)), 'st': NONE, 'body': inner}]
+        after = []
+        if rng.random() < 0.35:         # the carried values are also read after the loop
+            after.append(assign(V('t2'), self.bounded(op('sum', V('t2'), V(lc), el(lca, N(rng.randint(0, 4)))))))
+        return init + loop + after, decls
 
     def derive_stmtfunc(self, name, earlier, funs):
         """Statement function  name(sa, sb) = <integer expression over sa, sb, host scalars>: for the machine an
@@ -724,7 +811,7 @@ def insert_regions(rng, kernel, count, *, overrides=True, names=True, allow_asso
 
 # ----------------------------------------------------------------------------- renderer (several modules)
 def jprb_line(prog):
-    return '  integer, parameter :: jprb = ' + prog['layout'].get('jprb', 'selected_real_kind(13, 300)')
+    return f"  integer, parameter :: {F.ident('jprb')} = " + prog['layout'].get('jprb', 'selected_real_kind(13, 300)')
 
 
 def _kwcalls(ss):
@@ -745,8 +832,12 @@ def _kwcalls(ss):
                 if s['args'][i].get('k') == 'none':
                     continue
                 t = F.rx(s['args'][i])
-                parts.append(t if pos < s['npos'] else f"{s['kwnames'][i]}={t}")
-            s = raw(f"call {s['name']}({', '.join(parts)})")
+                parts.append(t if pos < s['npos'] else f"{F.ident(s['kwnames'][i])}={t}")
+            s = raw(f"call {F.ident(s['name'])}({', '.join(parts)})")
+        elif s['s'] == 'raw' and s['text'].startswith('!$loki outline') and '(' in s['text']:
+            # variable names in the in()/inout()/out() options take part in case mixing
+            s['text'] = re.sub(r'\b(in|out|inout)\(([^)]*)\)',
+                               lambda m: f"{m.group(1)}({','.join(F.ident(v) for v in m.group(2).split(','))})", s['text'])
         out.append(s)
     return out
 
@@ -754,10 +845,10 @@ def _kwcalls(ss):
 def render_unit(u, prog, ind=2):
     pad = ' ' * ind
     layout = prog['layout']
-    args = ', '.join(u['args'])
+    args = ', '.join(F.ident(a) for a in u['args'])
     pre = 'elemental ' if u.get('elemental') else ''
-    head = f"{pad}{pre}subroutine {u['name']}({args})" if u['kind'] == 'subroutine' else \
-        f"{pad}{pre}function {u['name']}({args})" + (f" result({u['result']})" if u['result'] != u['name'] else '')
+    head = f"{pad}{pre}subroutine {F.ident(u['name'])}({args})" if u['kind'] == 'subroutine' else \
+        f"{pad}{pre}function {F.ident(u['name'])}({args})" + (f" result({F.ident(u['result'])})" if u['result'] != u['name'] else '')
     lines = [head]
     names = {x['name']: x for x in prog['units']}
     if layout['use_at'] == 'routine' and not u['host']:
@@ -767,15 +858,15 @@ def render_unit(u, prog, ind=2):
             used += called_names(x)
         ext = sorted({n for n in used if n in names and names[n]['mod'] != u['mod'] and not names[n]['host']})
         if ext:
-            lines.append(f"{pad}  use hmod, only: {', '.join(ext)}")
+            lines.append(f"{pad}  use {F.ident('hmod')}, only: {', '.join(F.ident(n) for n in ext)}")
         cs = [d['name'] for d in u['decls'] if d.get('param') == 'cmod']
         if cs:
-            lines.append(f"{pad}  use cmod, only: {', '.join(cs)}")
+            lines.append(f"{pad}  use {F.ident('cmod')}, only: {', '.join(F.ident(n) for n in cs)}")
     for d in u['decls']:
         if d.get('param') == 'cmod':
             continue
         if d.get('param') == 'local':
-            lines.append(f"{pad}  {F.TYPES[d['type']]}, parameter :: {d['name']} = {F.rx(d['init'])}")
+            lines.append(f"{pad}  {F.kinded(F.TYPES[d['type']])}, parameter :: {F.ident(d['name'])} = {F.rx(d['init'])}")
             continue
         line = F.rdecl(d, d['name'] in u['args'])
         if d.get('optional'):
@@ -784,31 +875,37 @@ def render_unit(u, prog, ind=2):
     sfs = [x for x in prog['units'] if x['host'] == u['name'] and x.get('stmtfunc')]
     if sfs:
         dn = sorted({a for x in sfs for a in x['args']})
-        lines.append(f"{pad}  integer :: {', '.join(dn + [x['name'] for x in sfs])}")
+        lines.append(f"{pad}  integer :: {', '.join(F.ident(n) for n in dn + [x['name'] for x in sfs])}")
         for x in sfs:
-            lines.append(f"{pad}  {x['name']}({', '.join(x['args'])}) = {F.rx(x['body'][0]['rhs'])}")
+            lines.append(f"{pad}  {F.ident(x['name'])}({', '.join(F.ident(a) for a in x['args'])}) = {F.rx(x['body'][0]['rhs'])}")
     lines += F.rstmts(_kwcalls(u['body']), ind + 2, None)
     inner = [x for x in prog['units'] if x['host'] == u['name'] and not x.get('stmtfunc')]
     if inner:
         lines.append(pad + 'contains')
         for x in inner:
             lines += render_unit(x, prog, ind + 2)
-    lines.append(f"{pad}end {u['kind']} {u['name']}")
+    lines.append(f"{pad}end {u['kind']} {F.ident(u['name'])}")
     return lines
 
 
 def render_modules(prog):
-    """[(module name, text)] in compilation order."""
+    """[(module name, text)] in compilation order; identifiers case mixed if prog['casemix'] is a seed."""
+    with F.casemixing(prog.get('casemix'), prog.get('casemix_keep', ())):
+        return _render_modules(prog)
+
+
+def _render_modules(prog):
     layout = prog['layout']
     out = []
     names = {x['name']: x for x in prog['units']}
     kernel = prog['units'][0]
     consts = [c for c in layout['consts'] if any(d['name'] == c['name'] for d in kernel['decls'])]
     if consts:
-        L = ['module cmod', '  implicit none', jprb_line(prog)]
+        L = [f"module {F.ident('cmod')}", '  implicit none', jprb_line(prog)]
         for c in consts:
-            L.append(f"  {F.TYPES[c['type']]}, parameter :: {c['name']} = {c['ftext']}")
-        L.append('end module cmod')
+            L.append(f"  {F.kinded(F.TYPES[c['type']])}, parameter :: {F.ident(c['name'])} = "
+                     + re.sub(r'[a-z]\w*', lambda m: F.ident(m.group(0)), c['ftext']))
+        L.append(f"end module {F.ident('cmod')}")
         out.append(('cmod', '\n'.join(L) + '\n'))
     for mod in ('hmod', 'kmod'):
         us = [u for u in prog['units'] if u['mod'] == mod and not u['host']]
@@ -816,7 +913,7 @@ def render_modules(prog):
             continue
         if layout.get('fn_first'):
             us = [u for u in us if u['kind'] == 'function'] + [u for u in us if u['kind'] != 'function']
-        L = [f'module {mod}']
+        L = [f'module {F.ident(mod)}']
         if mod == 'kmod' and layout['use_at'] == 'module':
             used = []
             for u in prog['units']:
@@ -824,13 +921,13 @@ def render_modules(prog):
                     used += called_names(u)
             ext = sorted({n for n in used if n in names and names[n]['mod'] == 'hmod'})
             if ext:
-                L.append(f"  use hmod, only: {', '.join(ext)}")
+                L.append(f"  use {F.ident('hmod')}, only: {', '.join(F.ident(n) for n in ext)}")
             if consts:
-                L.append(f"  use cmod, only: {', '.join(c['name'] for c in consts)}")
+                L.append(f"  use {F.ident('cmod')}, only: {', '.join(F.ident(c['name']) for c in consts)}")
         L += ['  implicit none', jprb_line(prog), 'contains']
         for u in us:
             L += render_unit(u, prog, 2)
-        L.append(f'end module {mod}')
+        L.append(f'end module {F.ident(mod)}')
         out.append((mod, '\n'.join(L) + '\n'))
     return out
 
@@ -1157,9 +1254,28 @@ def need(ap, *wanted):
     return pred
 
 
+def casemix_post(inner=None, arraydummies=False):
+    """generate() post-processor: render the program with case-mixed identifiers (after an optional other post).
+    Array dummies of the callees keep their spelling unless arraydummies=True (a construct of its own: Loki maps
+    array arguments by case-sensitive name comparison)."""
+    def post(rng, prog):
+        if inner is not None:
+            inner(rng, prog)
+        prog['casemix'] = rng.randint(1, 10 ** 6)
+        if not arraydummies:
+            prog['casemix_keep'] = sorted({d['name'] for u in prog['units'][1:] for d in u['decls'] if d['dims'] and d['name'] in u['args']})
+    return post
+
+
 def tags(prog):
     """Structural features of the (shrunk) failing program that matter for inlining / outlining."""
     t = set()
+    if any(d['name'] == 'lc1' for d in prog['units'][0]['decls']) and {'lc1', 'lca1'} & mentions(prog['units'][0]['body']) and has_region(prog):
+        t.add('region-loop-carried')
+    if prog.get('casemix'):
+        t.add('casemix')
+        if 'casemix_keep' not in prog and any(d['dims'] and d['name'] in u['args'] for u in prog['units'][1:] for d in u['decls']):
+            t.add('casemix-array-dummy')
     units = {u['name']: u for u in prog['units']}
     for u in prog['units']:
         body = u['body']
@@ -1560,7 +1676,7 @@ def report(ctx, cases, results, fails, slices, per_group=2, rounds=12, budget=90
         ctx.violation(key, what, {'prog': cases[idx][0], 'inputs': cases[idx][1]})
 
 
-def run_slices(ctx, slices, total, assumptions):
+def run_slices(ctx, slices, total, assumptions, minimums=None):
     """Common driver body of C28 / C33: generate per slice, one behaviour_check over everything, report."""
     import os
     if ctx.replay:
@@ -1594,6 +1710,13 @@ def run_slices(ctx, slices, total, assumptions):
             else:
                 st['ok'] += 1
     ctx.cover['slices'] = per
+    # vacuity guard: strata that every run must have exercised (judged programs carrying the tag)
+    for tag, least in (minimums or {}).items():
+        have = sum(1 for r in results if r['idx'] in legal and r.get('new', ('',))[0] != 'not-applicable'
+                   and tag in tags(cases[r['idx']][0]).split('+'))
+        ctx.cover[f'stratum_{tag}'] = have
+        if not ctx.replay and not os.environ.get('VERIF_SLICES') and have < least:
+            raise MachineryError(f'vacuity: only {have} judged programs of stratum {tag} (minimum {least})')
     report(ctx, cases, results, fails, slices, per_group=1 if ctx.quick else 2, rounds=8 if ctx.quick else 16,
            budget=int(os.environ.get('VERIF_SHRINK_BUDGET', 45 if ctx.quick else 420)),
            base=[k for k in slices if '-' not in k or k.startswith('xform')])
